@@ -1,0 +1,22 @@
+//go:build !verif && linux
+// +build !verif,linux
+
+package system
+
+import (
+	"github.com/jsimonetti/rtnetlink"
+	"github.com/mdlayher/netlink"
+)
+
+// Without the "verif" build tag there are no simulator hooks: these stubs are
+// inlined away and the kernel is always used.
+
+func verifRtnlHook() func(rtnetlink.Message, uint16, netlink.HeaderFlags) ([]rtnetlink.Message, error) {
+	return nil
+}
+
+func verifLoopbacksHook() func() ([]int, error) { return nil }
+
+func (a *addresser) verifLoopbackRoutes(_ func() ([]int, error)) ([]Route, error) {
+	return nil, nil
+}
